@@ -33,13 +33,16 @@ EXTENDS Naturals, Sequences, FiniteSets, TLC
 
 CONSTANTS SortedDomains,     \* TRUE: missing domains are created in sorted order (the repaired code)
           AsSet,             \* subset of {"used_signals", "subfragments", "stmt_domains"}: hypothetical sets
+          PickBudget,        \* hypothetical sets: at most this many out-of-order picks per construction (they have up
+                             \* to 12 elements: all 12! orders are neither feasible nor needed to expose a dependence);
+                             \* the real set (missing domains, <= 3 elements) is always explored in every order
           MaxImplicit,       \* family: 0..MaxImplicit clock domains used without being defined (<= 3)
           SpreadChoices,     \* family: implicit domains driven in the top fragment (FALSE) / in submodules (TRUE)
           ClashChoices,      \* family: several signals (and a submodule) share one name
           AnonChoices,       \* family: submodules are anonymous
           Emit               \* TRUE: print the family and the finished outputs for the harness
 
-ASSUME /\ SortedDomains \in BOOLEAN /\ Emit \in BOOLEAN /\ MaxImplicit \in 0..3
+ASSUME /\ SortedDomains \in BOOLEAN /\ Emit \in BOOLEAN /\ MaxImplicit \in 0..3 /\ PickBudget \in Nat
        /\ AsSet \subseteq {"used_signals", "subfragments", "stmt_domains"}
        /\ SpreadChoices \subseteq BOOLEAN /\ ClashChoices \subseteq BOOLEAN /\ AnonChoices \subseteq BOOLEAN
 
@@ -72,13 +75,13 @@ SigName(D, s) ==
 (* top:  x <= a (sync)                     [+ r_k <= b in implicit domain k, unless spread]                   *)
 (* sub1: s = a (comb);  y <= s (sync)      [+ implicit domains 1, 3 if spread]                                *)
 (* sub2: z <= s (sync)                     [+ implicit domain 2 if spread]       s crosses the hierarchy      *)
-(* clash: y is also called "x", the registers r_k are all called "r", sub1 is called "x" like a signal of top *)
+(* clash: y and s are also called "x", the registers r_k are all called "r", sub1 is called "x" as well        *)
 RegName(k, cl) == IF cl THEN "r" ELSE "r" \o ToString(k)
 ImpStmt(k) == <<Imp[k], 5 + k, 2>>
 ImpStmts(ks) == MapSeq(ImpStmt, ks)
 MkDesign(n, sp, cl, an) ==
     [ feat     |-> [nimp |-> n, spread |-> sp, clash |-> cl, anon |-> an],
-      sigs     |-> <<"a", "b", "x", IF cl THEN "x" ELSE "y", "s", RegName(1, cl), RegName(2, cl), RegName(3, cl), "z">>,
+      sigs     |-> <<"a", "b", "x", IF cl THEN "x" ELSE "y", IF cl THEN "x" ELSE "s", RegName(1, cl), RegName(2, cl), RegName(3, cl), "z">>,
       declared |-> <<"sync">>,
       ports    |-> <<1, 2>>,
       frags    |-> << [name |-> "top", parent |-> 0,
@@ -91,8 +94,8 @@ MkDesign(n, sp, cl, an) ==
                                  \o (IF sp THEN ImpStmts(SelectSeq(Upto(n), LAMBDA k : k % 2 = 0)) ELSE <<>>)] >> ]
 Family == {MkDesign(n, sp, cl, an) : n \in 0..MaxImplicit, sp \in SpreadChoices, cl \in ClashChoices, an \in AnonChoices}
 
-VARIABLES design, phase, groups, st, picks
-vars == <<design, phase, groups, st, picks>>
+VARIABLES design, phase, groups, st, picks, budget
+vars == <<design, phase, groups, st, picks, budget>>
 D == design
 
 (* ------------------------------- ordered traversals of one design --------------------------------------- *)
@@ -202,20 +205,23 @@ Init == /\ design \in Family
         /\ st = St0(design)
         /\ groups = Gen(design, "create", St0(design))
         /\ picks = <<>>
+        /\ budget = PickBudget
         /\ (Emit => PrintT(<<"DESIGN", design>>))
 
 PickOrdered ==
     /\ groups # <<>> /\ Head(groups).ordered
     /\ st' = Apply(D, st, Head(groups).kind, Head(groups).items[1])
     /\ groups' = Consume(groups, 1)
-    /\ UNCHANGED <<design, phase, picks>>
+    /\ UNCHANGED <<design, phase, picks, budget>>
 
 PickFromSet ==
     /\ groups # <<>> /\ ~Head(groups).ordered
     /\ \E i \in 1..Len(Head(groups).items) :
+          /\ (i = 1 \/ Head(groups).kind = "create" \/ budget > 0)
           /\ st' = Apply(D, st, Head(groups).kind, Head(groups).items[i])
           /\ groups' = Consume(groups, i)
           /\ picks' = Append(picks, <<Head(groups).kind, Head(groups).items[i]>>)
+          /\ budget' = IF i = 1 \/ Head(groups).kind = "create" THEN budget ELSE budget - 1
     /\ UNCHANGED <<design, phase>>
 
 Advance ==
@@ -224,7 +230,7 @@ Advance ==
            s1 == Enter(D, p1, st)
        IN /\ phase' = p1 /\ st' = s1 /\ groups' = Gen(D, p1, s1)
           /\ (Emit /\ p1 = "done" => PrintT(<<"OUT", D.feat, Out(s1)>>))
-    /\ UNCHANGED <<design, picks>>
+    /\ UNCHANGED <<design, picks, budget>>
 
 Next == PickOrdered \/ PickFromSet \/ Advance
 Spec == Init /\ [][Next]_vars
